@@ -144,7 +144,8 @@ func vC16ProxyExec(t *testing.T, c *vCase) {
 			}
 			s, err := vC16NewProxy(t, trusted, allow)
 			if err != nil {
-				out = "err"
+				// refused: the case goes on with a server that has nothing configured
+				out = "err " + ensure().show()
 				break
 			}
 			srv = s
